@@ -492,3 +492,17 @@ Proof.
   intros d d' H. unfold remove_signatures in H. destruct (has_sigs d); [|discriminate].
   inversion H. split; reflexivity.
 Qed.
+
+(* ---------- catalog clean-up: every layout, with or without a usable form ---------- *)
+Lemma catalog_cleared : forall d d', remove_signatures d = Some d' ->
+  d_perms d' = false /\ d_dss d' = false /\ d_legal d' = false /\ d_ext d' = false.
+Proof.
+  intros d d' H. apply sigs_removed in H as [Hd _]. subst d'.
+  pose proof (flags_remove_all d) as [Hp [_ [Hd [Hl [He _]]]]]. repeat split; assumption.
+Qed.
+
+(* form = None (no /AcroForm, or validation dropped it): nothing but the catalog changes *)
+Lemma no_form_remove_all : forall d, d_form d = None ->
+  d_pages (remove_all d) = d_pages d /\ d_others (remove_all d) = d_others d /\
+  d_form (remove_all d) = None /\ d_acro (remove_all d) = d_acro d /\ d_perm (remove_all d) = d_perm d.
+Proof. intros d H. unfold remove_all. rewrite H. simpl. repeat split; assumption. Qed.
